@@ -390,6 +390,10 @@ def wicks(expr, rules: Rules = None, simplify_kronecker_deltas: bool = False):
         for factor in expr.args:
             if factor.is_commutative:
                 c_part.append(factor)
+            elif isinstance(factor, Pow) and \
+                    isinstance(factor.base, FermionicOperator):
+                # a_p * a_p = 0 and a^+_p * a^+_p = 0
+                return S.Zero
             else:
                 op_string.append(factor)
 
@@ -402,6 +406,8 @@ def wicks(expr, rules: Rules = None, simplify_kronecker_deltas: bool = False):
             result = (Mul(*c_part) * result).expand()
             if simplify_kronecker_deltas:
                 result = evaluate_deltas(result)
+    elif isinstance(expr, Pow) and isinstance(expr.base, FermionicOperator):
+        return S.Zero  # a_p * a_p = 0 and a^+_p * a^+_p = 0
     else:  # neither add, Mul, NO or Operator -> maybe a number or a tensor
         return expr
 
